@@ -498,6 +498,7 @@ package service
 //@   ensures[C14,fast-close-disabled] !isDNS(addr) || old(c.readDeadline) != 0 ==> oncedone(&c.fastClose)
 //@   ensures[C14,fast-close-kept-for-first-dns] isDNS(addr) && old(c.readDeadline) == 0 ==> oncedone(&c.fastClose) == old(oncedone(&c.fastClose))
 //@   trace[C14,socket-deadline-is-tracked-value] each net.PacketConn.SetReadDeadline satisfies $arg0 == c.readDeadline && $recv == c.PacketConn
+//@   trace[C14,fast-close-disabled-before-the-extension] before once.Do:* net.PacketConn.SetReadDeadline when !isDNS(addr) || old(c.readDeadline) != 0
 //@   trace[C14,socket-deadline-set-when-tracked-value-changes] exactly 1 net.PacketConn.SetReadDeadline when c.readDeadline != old(c.readDeadline)
 //@   trace[C14,no-spurious-deadline-change] never net.PacketConn.SetReadDeadline when c.readDeadline == old(c.readDeadline)
 
